@@ -3,6 +3,8 @@ package rpcsim
 import (
 	"errors"
 	"io"
+	"os"
+	"time"
 
 	"capnproto.org/go/capnp/v3/simrt"
 	"verifh/ref/packedref"
@@ -11,7 +13,9 @@ import (
 
 // simPipe is the io.ReadWriteCloser under the real stream transport
 // (topology C).  It has no deadline methods, so the transport's leaky-read
-// path is exercised.  Writes can be cut short or fail; whatever reached the
+// path is exercised; wrapped in simPipeDL it has a working SetReadDeadline and
+// the transport interrupts a blocked Read by moving the deadline into the past
+// (what it does on a net.Conn).  Writes can be cut short or fail; whatever reached the
 // wire is kept so that the torn-write rule can be checked.
 type simPipe struct {
 	r       *run
@@ -31,6 +35,36 @@ type simPipe struct {
 	torn         bool // a failed write left the wire in the middle of a frame
 	chunk        int
 	packed       bool // the transport under test is NewPackedStreamTransport: bytes on the pipe are packed
+	deadlines    bool      // wrapped in simPipeDL
+	rdl          time.Time // read deadline (zero: none)
+	wdl          time.Time // write deadline (zero: none)
+	writeStallAt int       // this write accepts stallKeep bytes and then makes no progress (deadline-capable pipe only)
+	stallKeep    int
+}
+
+// simPipeDL adds SetReadDeadline with the semantics of net.Conn: a Read that
+// is blocked, or starts, when the deadline has passed fails with a timeout.
+type simPipeDL struct{ *simPipe }
+
+func (p simPipeDL) SetReadDeadline(t time.Time) error {
+	p.rdl = t
+	p.s.Probe("pipe_set_read_deadline")
+	return nil
+}
+
+// SetWriteDeadline: a Write that is stalled when the deadline passes returns
+// what it has accepted so far and a timeout error.
+func (p simPipeDL) SetWriteDeadline(t time.Time) error {
+	p.wdl = t
+	return nil
+}
+
+func (p *simPipe) wexpired() bool {
+	return p.deadlines && !p.wdl.IsZero() && !time.Now().Before(p.wdl)
+}
+
+func (p *simPipe) expired() bool {
+	return p.deadlines && !p.rdl.IsZero() && !time.Now().Before(p.rdl)
 }
 
 var errPipeClosed = errors.New("rpcsim: pipe closed")
@@ -45,7 +79,15 @@ func (p *simPipe) Read(b []byte) (int, error) {
 		p.s.Fault("eof")
 		return 0, io.EOF
 	}
-	p.s.Block("pipe-read", func() bool { return len(p.rbuf) > 0 || len(p.r.toConn) > 0 || p.closed })
+	if p.expired() {
+		p.s.Probe("pipe_read_after_deadline")
+		return 0, os.ErrDeadlineExceeded
+	}
+	p.s.Block("pipe-read", func() bool { return len(p.rbuf) > 0 || len(p.r.toConn) > 0 || p.closed || p.expired() })
+	if p.expired() {
+		p.s.Probe("pipe_read_interrupted_by_deadline")
+		return 0, os.ErrDeadlineExceeded
+	}
 	if len(p.rbuf) == 0 && len(p.r.toConn) > 0 {
 		wm := p.r.toConn[0]
 		p.r.toConn = p.r.toConn[1:]
@@ -76,7 +118,38 @@ func (p *simPipe) Write(b []byte) (int, error) {
 		return 0, errPipeClosed
 	}
 	accept, err := len(b), error(nil)
+	if p.wexpired() {
+		return 0, os.ErrDeadlineExceeded
+	}
 	switch {
+	case p.writeStallAt != 0 && p.nWrite >= p.writeStallAt:
+		// the peer has stopped reading: this write takes stallKeep bytes (possibly none, possibly in
+		// the middle of a frame) and then sits there, like every later one, until the transport
+		// interrupts it through the write deadline or closes the stream; a stall that nobody
+		// interrupts ends with an error after ten simulated seconds
+		if p.nWrite == p.writeStallAt {
+			p.s.Fault("write_stall")
+			accept = p.stallKeep
+			if accept >= len(b) {
+				accept = len(b) - 1
+			}
+			if accept < 0 {
+				accept = 0
+			}
+		} else {
+			accept = 0
+		}
+		limit := p.s.Now() + 10*time.Second
+		p.s.Block("pipe-write-stall", func() bool { return p.wexpired() || p.closed || p.s.Now() >= limit })
+		err = os.ErrDeadlineExceeded
+		switch {
+		case p.wexpired():
+			p.s.Probe("pipe_write_interrupted_by_deadline")
+		case p.closed:
+			err = errPipeClosed
+		default:
+			err = errInjected
+		}
 	case p.shortWriteAt != 0 && p.nWrite == p.shortWriteAt && len(b) > 1:
 		accept = p.shortKeep
 		if accept >= len(b) {
